@@ -12,7 +12,7 @@ CHECKS = {
         category="model_checking",
         engine="E2 + H1",
         technique="stateless schedule exploration (hand-rolled, CHESS style): all await-point interleavings of k client tasks against the real Clock actor, re-execution from choice prefixes, deviation-bounded for k=3",
-        text="k=2 client tasks with 2-4 calls each (get_time / register_ts of stamps in the same tick, 1 s ahead, near the drift limit, beyond it, with the clock's own node id, with counters in the actor's back-pressure region) are explored over ALL interleavings of their await points; k=3 up to 2 (quick) / 3 (thorough) deviations, in fine-grained mode (one poll of one task - a caller or the clock actor - per step, runtime event_interval 1); three injected wall-clock behaviours (stalled, ticking, jumping backwards). Every execution is checked: stamps pairwise distinct, strictly increasing per task, every get_time invoked after a register_ts returned exceeds the registered stamp unless it was beyond the drift limit. Every 97th execution is run twice and must reproduce.",
+        text="k=2 client tasks with 2-4 calls each (get_time / register_ts of stamps in the same tick, 1 s ahead, near the drift limit, beyond it, with the clock's own node id, with counters in the actor's back-pressure region), plus a saturated clock (one task with 1000 requests in flight, the capacity of the actor's queue, racing with register_ts + get_time) are explored over ALL interleavings of their await points; k=3 up to 2 (quick) / 3 (thorough) deviations, in fine-grained mode (one poll of one task - a caller or the clock actor - per step, runtime event_interval 1); three injected wall-clock behaviours (stalled, ticking, jumping backwards). Every execution is checked: stamps pairwise distinct, strictly increasing per task, every get_time invoked after a register_ts returned exceeds the registered stamp unless it was beyond the drift limit. Every 97th execution is run twice and must reproduce.",
         note="Current-thread runtime, await-point granularity. Multi-threaded runtimes are argued equivalent to some FIFO enqueue order into the actor's channel (DESIGN.md), not explored.",
         design="DESIGN.md section 3, C11",
     ),
@@ -76,7 +76,7 @@ CHECKS = {
         category="fault_enumeration",
         engine="E1 Layer B cluster",
         technique="exhaustive enumeration of layouts x issuer x level x operation kind x prior selection x every assignment of {ack, request lost, reply lost, storage failure} to the other nodes, executed through the public store handle on a real in-process cluster",
-        text="5 (quick) / 11 (thorough) layouts of 2-4 nodes in 1-3 data centres, every issuer, all 8 levels, 2/4 operation kinds, fresh and pre-advanced selector cursors, all 4^(N-1) fault assignments. At the moment the call returns every node's storage is read: Ok implies the issuer and at least the required number of other nodes (and per-DC majorities) hold the write or a newer one; a consistency error must report exactly the number of replicas that applied the write and had their reply delivered, the local write must be in place, and after the faults clear a batch flush plus a repair round must bring it to every node.",
+        text="5 (quick) / 11 (thorough) layouts of 2-4 nodes in 1-3 data centres, every issuer, all 8 levels, 2/4 operation kinds, fresh and pre-advanced selector cursors, all 5^(N-1) fault assignments ({ack, request lost, reply lost, storage failure, storage failure after the first document of a bulk call}). At the moment the call returns every node's storage is read: Ok implies the issuer and at least the required number of other nodes (and per-DC majorities) hold the write or a newer one; a consistency error must report exactly the number of replicas that applied the write and had their reply delivered, the local write must be in place, and after the faults clear a batch flush plus a repair round must bring it to every node.",
         note="The issuer's own storage does not fail. Selection failures are only checked to be justified (C15 decides selection).",
         design="DESIGN.md section 3, C06",
     ),
@@ -132,7 +132,7 @@ CHECKS = {
         category="model_checking",
         engine="E1 Layer A",
         technique="local clauses: stateless DFS over timely delivery sequences with purge events on the real OrSWotSet (purge evaluated in every state, stale-operation probes); cluster clause: explicit-state DFS over a 2-3 replica model with explicit time and clock skew whose replicas are real OrSWotSet values, timeliness enforced by the explorer, differential oracle against a never-purging twin in every state",
-        text="Local: in every state reached by timely delivery sequences (pool with >1h gaps so purges fire, both sources, up to 2 purges, depth 6/8) a purge leaves lookups and live entries unchanged, returns only genuine tombstones older than min-over-sources minus 1h, never lowers a cut-off, and every operation from the deleting node not newer than a purged delete is refused without changing the state. Cluster: events issue / direct delivery / repair (real diff + actor-style batches) / purge / 20-minute time advance with skew {0,20} min; the explorer refuses to advance time while an operation would stay undelivered beyond 1h minus the skew spread; every state after a purge is compared with a twin that saw the same events without purges, and is also closed (pending deliveries, two full repair rounds) and compared with twin and the last-writer-wins reference (quick: 3.8 M model states, 7 k closings).",
+        text="Local: in every state reached by timely delivery sequences (pool with >1h gaps so purges fire, both sources, up to 2 purges, depth 6/8) a purge leaves lookups and live entries unchanged, returns only genuine tombstones older than min-over-sources minus 1h, never lowers a cut-off, and every operation from the deleting node not newer than a purged delete is refused without changing the state, right after the purge and in every later state of the history. Cluster: events issue / direct delivery / repair (real diff + actor-style batches) / purge / 20-minute time advance with skew {0,20} min; the explorer refuses to advance time while an operation would stay undelivered beyond 1h minus the skew spread; every state after a purge is compared with a twin that saw the same events without purges, and is also closed (pending deliveries, two full repair rounds) and compared with twin and the last-writer-wins reference (quick: 3.8 M model states, 7 k closings).",
         note="Cluster model replicas are real OrSWotSet values; the actor's batch glue is restated (bound to the code by C02/C01). Dedup key includes the path length because the event bound is a path property. 2-3 replicas, <=4 operations, 2 keys.",
         design="DESIGN.md section 3, C08",
     ),
